@@ -312,12 +312,12 @@ def run(ctx, eng):
            'called from %s' % sorted(c.split('.')[-1] for c in callers))
     f9 = m.func(H + '_local_settings_acked')
     ok = cm.Every()
-    for p in cm.normal_paths(eng.I.run(f9)):
+    from .c11 import code_facts, handler_paths
+    for p in handler_paths(eng, 'local'):
         cs = [e for e in p.events if e.kind == 'call' and
               H + '_inbound_flow_control_change_from_settings' in e.names]
         if cs:
             a = [cm.show0(x) for x in cs[0].args]
-            from .c11 import code_facts
             ok(len(a) == 2 and a[0].endswith('.original_value') and
                a[1].endswith('.new_value') and
                code_facts(p).get('INITIAL_WINDOW_SIZE') is True)
